@@ -278,6 +278,8 @@ CHECKS["C07"] = {
         H("opentype/gtab", _S7, "VerifH_C07_term", ["terminated"], quick={"timeout": 280}),
         H("opentype/gtab", _S7, "VerifH_C07_scratch", ["applied"], quick={"timeout": 280, "shards": 6}),
         H("opentype/gtab", _S7, "VerifH_C07_gposmut", ["accepted", "rejected"], quick={"timeout": 280, "shards": 7}),
+        H("opentype/gtab", _S7, "VerifH_C07_sharedtext", ["applied"], quick={"timeout": 280}),
+        H("opentype/gtab", ["c15.go", "common.go"], "VerifH_C15_find", ["found"], quick={"timeout": 280}),
         H("opentype/gtab", _S7, "VerifH_C06_ligature", ["applied"], quick={"params": {"maxlen": 2}, "timeout": 280}),
         H("opentype/gtab", _S7, "VerifH_C06_multiple", ["applied"], quick={"params": {"maxlen": 2}, "timeout": 280}),
         H("opentype/gtab", _S7, "VerifH_C06_pairclass", ["applied"], quick={"params": {"maxlen": 2}, "timeout": 280}),
